@@ -28,6 +28,7 @@ import (
 	"github.com/dgraph-io/badger/v4/pb"
 	"github.com/dgraph-io/badger/v4/skl"
 	"github.com/dgraph-io/badger/v4/table"
+	"github.com/dgraph-io/badger/v4/vhook"
 	"github.com/dgraph-io/badger/v4/y"
 	"github.com/dgraph-io/ristretto/v2"
 	"github.com/dgraph-io/ristretto/v2/z"
@@ -852,11 +853,13 @@ func (db *DB) writeRequests(reqs []*request) error {
 		}
 	}
 	db.opt.Debugf("writeRequests called. Writing to value log")
+	vhook.Point("writer.start")
 	err := db.vlog.write(reqs)
 	if err != nil {
 		done(err)
 		return err
 	}
+	vhook.Point("writer.vlogWritten")
 
 	db.opt.Debugf("Writing to memtable")
 	var count int
@@ -876,6 +879,7 @@ func (db *DB) writeRequests(reqs []*request) error {
 			// When flushChan is full and you are blocked there, and the flusher is trying to update s.imm,
 			// you will get a deadlock.
 			time.Sleep(10 * time.Millisecond)
+			vhook.Point("writer.roomPoll")
 		}
 		if err != nil {
 			done(err)
@@ -885,6 +889,7 @@ func (db *DB) writeRequests(reqs []*request) error {
 			done(err)
 			return y.Wrap(err, "writeRequests")
 		}
+		vhook.Point("writer.reqApplied")
 	}
 
 	db.opt.Debugf("Sending updates to subscribers")
@@ -945,6 +950,7 @@ func (db *DB) doWrites(lc *z.Closer) {
 		case <-lc.HasBeenClosed():
 			goto closedCase
 		}
+		vhook.Point("doWrites.recv")
 
 		for {
 			reqs = append(reqs, r)
@@ -955,6 +961,19 @@ func (db *DB) doWrites(lc *z.Closer) {
 				goto writeCase
 			}
 
+			if vhook.On {
+				// Under simulation the choice between the ready cases of the
+				// select below is made by the simulator, not by the runtime.
+				if r2, act := db.verifDoWritesChoice(pendingCh, lc); act == 1 {
+					r = r2
+					vhook.Point("doWrites.recv")
+					continue
+				} else if act == 2 {
+					goto writeCase
+				} else if act == 3 {
+					goto closedCase
+				}
+			}
 			select {
 			// Either push to pending, or continue to pick from writeCh.
 			case r = <-db.writeCh:
@@ -1037,6 +1056,7 @@ func (db *DB) ensureRoomForWrite() error {
 		db.opt.Debugf("Flushing memtable, mt.size=%d size of flushChan: %d\n",
 			db.mt.sl.MemSize(), len(db.flushChan))
 		// We manage to push this task. Let's modify imm.
+		vhook.Event("mt.rotate", uint64(len(db.imm)), 0)
 		db.imm = append(db.imm, db.mt)
 		db.mt, err = db.newMemTable()
 		if err != nil {
@@ -1102,6 +1122,7 @@ func (db *DB) handleMemTableFlush(mt *memTable, dropPrefixes [][]byte) error {
 		return y.Wrap(err, "error while creating table")
 	}
 	// We own a ref on tbl.
+	vhook.Point("flusher.tableBuilt")
 	err = db.lc.addLevel0Table(tbl) // This will incrRef
 	_ = tbl.DecrRef()               // Releases our ref.
 	return err
@@ -1116,6 +1137,7 @@ func (db *DB) flushMemtable(lc *z.Closer) {
 		if mt == nil {
 			continue
 		}
+		vhook.Point("flusher.recv")
 
 		for {
 			if err := db.handleMemTableFlush(mt, nil); err != nil {
@@ -1126,6 +1148,7 @@ func (db *DB) flushMemtable(lc *z.Closer) {
 			}
 
 			// Update s.imm. Need a lock.
+			vhook.Point("flusher.beforePop")
 			db.lock.Lock()
 			// This is a single-threaded operation. mt corresponds to the head of
 			// db.imm list. Once we flush it, we advance db.imm. The next mt
@@ -1134,6 +1157,7 @@ func (db *DB) flushMemtable(lc *z.Closer) {
 			// TODO: This logic is dirty AF. Any change and this could easily break.
 			y.AssertTrue(mt == db.imm[0])
 			db.imm = db.imm[1:]
+			vhook.Event("flush.done", uint64(len(db.imm)), 0)
 			mt.DecrRef() // Return memory.
 			// unlock
 			db.lock.Unlock()
